@@ -282,11 +282,11 @@ def struct_rules(ctx, item):
             re.match(r'^Gt\(.*resolved.*\.size, 0\)$', cond) is not None
     ctx.ob(['C02', 'C13'], 'R-TMPL', 'struct|size-check', oks, 'a transmute between [u8; size] and the struct is emitted for size > 0, with the resolved size of this very item: %s' % det, where)
     # singleton
-    m = re.search(r'OPT(\d+)\[ impl ' + H + r' \{ ' + VIS + r' unsafe fn get \(  \) -> Option < & \'static mut Self > \{ unsafe \{ let ptr : \* mut Self = \* \( ' + H + r' as \* mut \* mut Self \) ; ptr \. as_mut \(  \) \} \} \} \]', s)
+    m = re.search(r'OPT(\d+)\[ impl ' + H + r' \{ ' + VIS + r' unsafe fn get \(  \) -> Option < & \'static mut Self > \{ unsafe \{ let (?P<pv>\w+) : \* mut Self = \* \( ' + H + r' as \* mut \* mut Self \) ; (?P=pv) \. as_mut \(  \) \} \} \} \]', s)
     oksg = False
     det = 'no singleton accessor of the expected shape'
     if m:
-        o, hn, va, ha = m.groups()
+        o, hn, va, _pv, ha = m.groups()
         cond = show(item.opts[int(o)][1])
         pa = item.hp(ha)
         det = 'cond %s address %s (%s)' % (cond[:80], pa[0], pa[3])
@@ -439,7 +439,7 @@ def enum_rules(ctx, item):
 
 # ------------------------------------------------------------------------------------------------
 ARGS_DECL = r'REP(\d+)\( ⟨E\d+:ALT(\d+)\{ & self \|\| & mut self \|\| ' + H + ' : ' + H + r' \}⟩ \),\*'
-ARGS_PTR = r'REP(\d+)\( ⟨E\d+:ALT(\d+)\{ this : \* const Self \|\| this : \* mut Self \|\| ' + H + ' : ' + H + r' \}⟩ \),\*'
+ARGS_PTR = r'REP(\d+)\( ⟨E\d+:ALT(\d+)\{ \w+ : \* const Self \|\| \w+ : \* mut Self \|\| ' + H + ' : ' + H + r' \}⟩ \),\*'
 ARGS_CALL = r'REP(\d+)\( ⟨E\d+:ALT(\d+)\{ self as \* const Self as _ \|\| self as \* mut Self as _ \|\| ' + H + r' \}⟩ \),\*'
 
 
@@ -494,11 +494,11 @@ def fn_rules(ctx, fn):
         return ok, 'over %s %s' % (base, names)
     # Address arm
     a = arms[0]
-    m1 = re.search(r'^let f : unsafe extern ' + H + r' fn \( ' + ARGS_PTR + r' \) OPT(\d+)\[ -> ' + H + r' \] = (?::: )?(?:std|core) :: mem :: transmute \( ' + H + r' as usize \) ; f \( (.*) \)$', a)
+    m1 = re.search(r'^let (?P<fv>\w+) : unsafe extern ' + H + r' fn \( ' + ARGS_PTR + r' \) OPT(\d+)\[ -> ' + H + r' \] = (?::: )?(?:std|core) :: mem :: transmute \( ' + H + r' as usize \) ; (?P=fv) \( (.*) \)$', a)
     ok1 = False
     det = 'Address arm of unexpected shape: %s' % a[:160]
     if m1:
-        hcc, prep, palt, pn, pt, ro, rt2, haddr, call = m1.groups()
+        _fv, hcc, prep, palt, pn, pt, ro, rt2, haddr, call = m1.groups()
         pcc = fn.hp(hcc)
         r, info = fn.rep_info(prep)
         chain = [c[0] for c in (info or {}).get('chain', [])]
@@ -526,11 +526,11 @@ def fn_rules(ctx, fn):
     ctx.ob(['C07'], 'R-TMPL', 'fn|field-body', ok2, 'Field body: `self.<field>.<function_name>(<arguments without the receiver, in order>)`, a single tail call: %s' % det, where)
     # Vftable arm
     c = arms[2]
-    m3 = re.search(r'^let f = (?::: )?(?:std|core) :: ptr :: addr_of ! \( \( \* self \. vftable \(  \) \) \. ' + H + r' \) \. read \(  \) ; f \( (.*) \)$', c)
+    m3 = re.search(r'^let (?P<fv>\w+) = (?::: )?(?:std|core) :: ptr :: addr_of ! \( \( \* self \. vftable \(  \) \) \. ' + H + r' \) \. read \(  \) ; (?P=fv) \( (.*) \)$', c)
     ok3 = False
     det = 'Vftable arm of unexpected shape: %s' % c[:160]
     if m3:
-        hs, call = m3.groups()
+        _fv, hs, call = m3.groups()
         ps = fn.hp(hs)
         okc, dc = call_args(call, 'vft', True)
         det = 'slot %s; call %s' % (ps[0], dc)
